@@ -76,6 +76,12 @@ def check_case(case):
             got = r[0] == 'ok'
             if r[0] == 'exc' and not isinstance(r[1], CheckProofOfWorkError):
                 raise Violation('pow/errtype', 'rejection raised %s' % type(r[1]).__name__)
+            if (h + c) % 4 == 0:
+                # the hash held as bytearray / memoryview / a bytes subclass gives the same verdict
+                for kind, hv in libx.spellings(h.to_bytes(32, 'little'), with_script=True)[1:]:
+                    r2 = libx.call('pow-' + kind, CheckProofOfWork, hv, c, allowed=(ValidationError,))
+                    if (r2[0] == 'ok') != got:
+                        raise Violation('pow/hash-as-' + kind, 'CheckProofOfWork gives another verdict for the same hash passed as %s' % kind)
             if got != exp:
                 v, neg, ovf = RC.set_compact(c)
                 raise Violation('pow/%s' % ('accepts-invalid' if got else 'rejects-valid') + ('-signbit' if c & 0x800000 else ''),
